@@ -87,6 +87,45 @@ def HKey.sameList (N : Num α) : List (HKey α) → List (HKey α) → Bool
   | _, _ => false
 end
 
+/-! ### the derivative objects and points as values: `__eq__` and `__hash__` -/
+
+/-- what `==`/`hash` look at in each public object (`Partial` : original expression and variable
+name; `Derivative`/`Differential` : original expression; `LocatedDifferential` : original expression
+and point) — the memoised symbolic partials and the numeric partials play no role -/
+inductive Obj (α : Type) where
+  | expr (e : Expr α)
+  | point (p : Point α)
+  | partial_ (e : Expr α) (x : String)
+  | derivative (e : Expr α)
+  | differential (e : Expr α)
+  | located (e : Expr α) (p : Point α)
+
+/-- `__eq__` of the five public classes and of expressions: first the classes must be the same -/
+def Obj.beq (N : Num α) : Obj α → Obj α → Bool
+  | .expr a, .expr b => Smooth.beq N a b
+  | .point p, .point q => pointBeq N q p          -- `other._coordinates == self._coordinates`
+  | .partial_ a x, .partial_ b y => Smooth.beq N a b && x == y
+  | .derivative a, .derivative b => Smooth.beq N a b
+  | .differential a, .differential b => Smooth.beq N a b
+  | .located a p, .located b q => Smooth.beq N a b && pointBeq N p q
+  | _, _ => false
+
+/-- `tuple(sorted(self._coordinates.items()))` : names are distinct, so the order is by name -/
+def sortedItems (p : Point α) : List (String × α) :=
+  p.mergeSort fun a b => decide (a.1 ≤ b.1)
+
+def pointHashKey (p : Point α) : HKey α :=
+  .tup [.str "Point", .tup ((sortedItems p).map fun (x, v) => .tup [.str x, .num v])]
+
+/-- the tuple handed to `hash` (`Partial` leaves the variable out) -/
+def Obj.hashKey : Obj α → HKey α
+  | .expr e => Smooth.hashKey e
+  | .point p => pointHashKey p
+  | .partial_ e _ => .tup [.str "Partial", Smooth.hashKey e]
+  | .derivative e => .tup [.str "Derivative", Smooth.hashKey e]
+  | .differential e => .tup [.str "Differential", Smooth.hashKey e]
+  | .located e p => .tup [.str "LocatedDifferential", Smooth.hashKey e, pointHashKey p]
+
 /-! ### `__repr__` as tokens, and a parser -/
 
 inductive Tok (α : Type) where
@@ -133,6 +172,15 @@ def renderDifferential (e : Expr α) : List (Tok α) :=
   [.ident "Differential", .lp] ++ render e ++ [.rp]
 def renderLocated (e : Expr α) (p : Point α) : List (Tok α) :=
   [.ident "LocatedDifferential", .lp] ++ render e ++ [.comma] ++ renderPoint p ++ [.rp]
+
+/-- `__repr__`/`__str__` of every public object -/
+def Obj.render : Obj α → List (Tok α)
+  | .expr e => Smooth.render e
+  | .point p => renderPoint p
+  | .partial_ e x => renderPartial e x
+  | .derivative e => renderDerivative e
+  | .differential e => renderDifferential e
+  | .located e p => renderLocated e p
 
 /-- Recursive-descent reader of the constructor-call syntax (`eval` restricted to the public
 constructors).  Fuel bounds the nesting depth; `render` output of size `k` parses with fuel `k`. -/
